@@ -66,6 +66,21 @@ def _windowed(seq, n, fillvalue=None, step=1):
     return [tuple(seq[i:i + n]) for i in range(0, len(seq) - n + 1, step)]
 
 
+def _consecutive_groups(iterable, ordering=None):
+    out = []
+    for v in iterable:
+        k = v if ordering is None else ordering(v)
+        if out and k == out[-1][1] + 1:
+            out[-1][0].append(v)
+            out[-1][1] = k
+        else:
+            out.append([[v], k])
+    return [g for g, _ in out]
+
+
+PURE_FUNCS.update({'consecutive_groups': _consecutive_groups, 'more_itertools.consecutive_groups': _consecutive_groups})
+
+
 def _groupby(iterable, key=None):
     return [(k, list(g)) for k, g in itertools.groupby(list(iterable), key)]      # runs of CONSECUTIVE equal keys, groups materialised
 
